@@ -25,7 +25,7 @@ pub struct ScopeCfg {
     pub no_tracingmacros: bool,
 }
 
-pub const FAMILIES: [&str; 17] = [
+pub const FAMILIES: [&str; 18] = [
     "begin",
     "end",
     "set_reg",
@@ -43,6 +43,7 @@ pub const FAMILIES: [&str; 17] = [
     "probe",
     "local_global_pair",
     "nest_redefine",
+    "wide_group",
 ];
 
 const REG_INDICES: [u16; 8] = [0, 1, 2, 255, 256, 3, 32767, 7];
@@ -463,6 +464,70 @@ impl<'a> ScopeGen<'a> {
                             }),
                         }
                     }
+                }
+                ops
+            }
+            "wide_group" => {
+                // Many distinct variables (or names) assigned locally inside ONE group - 3 .. 70 of
+                // them, around the sizes at which a small inline table, a hash map or a vector
+                // changes shape - then a few of them assigned again (locally or globally), the
+                // group closed, and the values read back.
+                if self.model.depth() >= self.cfg.depth_cap {
+                    return vec![];
+                }
+                let mut ops = vec![Op::Begin];
+                let n = *self.rng.pick(&[3usize, 7, 8, 9, 15, 16, 17, 31, 32, 33, 64, 70]);
+                let names = self.rng.chance(1, 4);
+                let n = if names { n.min(26) } else { n };
+                let rk = self.kind();
+                let mut assign = |me: &mut Self, i: usize, g: bool| {
+                    if names {
+                        me.next_body += 1;
+                        Op::Def {
+                            g,
+                            gdef: false,
+                            t: Target::Cs(i as u8),
+                            body: me.next_body,
+                        }
+                    } else {
+                        let (v, w) = me.value(rk);
+                        Op::SetReg {
+                            g,
+                            kind: rk,
+                            idx: 10 + i as u16,
+                            v,
+                            w,
+                        }
+                    }
+                };
+                let read = |i: usize| {
+                    if names {
+                        Op::Probe {
+                            t: Target::Cs(i as u8),
+                        }
+                    } else {
+                        Op::ReadReg {
+                            kind: rk,
+                            idx: 10 + i as u16,
+                        }
+                    }
+                };
+                for i in 0..n {
+                    ops.push(assign(self, i, false));
+                }
+                for _ in 0..(1 + self.rng.below(4)) {
+                    let i = self.rng.below(n);
+                    let g = self.g();
+                    ops.push(assign(self, i, g));
+                    ops.push(read(i));
+                }
+                if self.rng.chance(3, 4) {
+                    ops.push(Op::End);
+                }
+                ops.push(read(0));
+                ops.push(read(n - 1));
+                for _ in 0..4 {
+                    ops.push(read(self.rng.below(n)));
                 }
                 ops
             }
